@@ -1,1 +1,2 @@
+pub mod objmodel;
 pub mod rfc8259;
